@@ -1,4 +1,4 @@
-import RaftProofs.ProtoLStep
+import RaftProofs.ProtoC
 
 /-!
 # C03 — leader completeness and the election restriction
@@ -11,10 +11,17 @@ candidate's true log tail, a winner's log is unchanged since it campaigned — a
 facts leader completeness rests on (a leader's log is the ghost log of its term, which extends
 its log at election time only by own-term entries; Log Matching).
 
-**Leader completeness itself** (`C03_full_statement`: every leader of a later term holds every entry
-committed in an earlier term) is the commit layer of P and is *not proved in this round*; on
-implementation traces it is checked directly by the monitor "a new leader holds every entry reported
-committed so far" and by the election-restriction monitor on every grant.
+**Leader completeness itself** is proved for every reachable state of every history under a fixed
+configuration with at least one voter (`C03_leader_completeness`: the ghost log of every elected term
+holds, at the same indexes, every own-term entry of an earlier term that a deciding quorum has
+durably acknowledged — whether or not that leader ever learned it; `C03_leader_holds_committed`: a
+node in the leader role holds every prefix committed by a leader of a term not beyond its own;
+`C03_elected_with_committed`: already the log it was elected with does).  The proof is in
+`RaftProofs/ProtoC4.lean` (quorum intersection, the voter's log recorded with its grant retains what
+it acknowledged, up-to-date rule).  On implementation traces the property is also checked directly by
+the monitor "a new leader holds every entry reported committed so far" and by the
+election-restriction monitor on every grant.  Histories with membership changes: trace validation
+and monitors only.
 -/
 namespace RaftProps.C03
 open RaftModel.P
@@ -173,16 +180,43 @@ theorem C03_leader_log_is_ghost (c0 : Cfg) (hne : c0.incoming ≠ [] ∨ c0.outg
   have I := invL_reach c0 hne s hr
   exact ⟨I.ll i h, fun e he => I.lterm _ e he⟩
 
-/-- **Leader completeness** (not proved in this round): in every reachable state, the ghost log of
-every elected term contains, at the same index, every entry that a leader of an earlier term
-committed. `committedBy s t k` abbreviates "the leader of `t` had a quorum of released
-acknowledgements for its own-term entry at index `k`". -/
+/-- **Leader Completeness** (quorum form): in every reachable state, if a deciding quorum has released
+(= durably covered) acknowledgements of term `t` up to index `k` and entry `k` of the log of the leader
+of `t` is of term `t`, then the ghost log of every elected later term `t'` agrees with it up to `k`. -/
+theorem C03_leader_completeness (c0 : Cfg) (hne : c0.incoming ≠ [] ∨ c0.outgoing ≠ []) (s : PSys)
+    (hr : ReachC c0 s) (t t' k : Nat) (hlt : t < t') (hel : ∃ j, (t', j) ∈ s.elected)
+    (hk : 0 < k) (hlen : k ≤ (s.llog t).length) (hterm : termAt (s.llog t) k = t)
+    (q : List Nat) (hq : c0.isQuorum q = true)
+    (hacks : ∀ v ∈ q, ∃ a ∈ s.acks, a.term = t ∧ a.frm = v ∧ k ≤ a.idx) :
+    (s.llog t').take k = (s.llog t).take k := by
+  have I := invAll_reach c0 hne s hr
+  exact lc_quorum_llog c0 hne s I.l I.a I.b I.c.c2 t k hk hlen hterm q hq hacks t' hlt hel
+
+/-- a node in the leader role holds every prefix committed by a leader of a term not beyond its own -/
+theorem C03_leader_holds_committed (c0 : Cfg) (hne : c0.incoming ≠ [] ∨ c0.outgoing ≠ []) (s : PSys)
+    (hr : ReachC c0 s) (i : Nat) (hi : (s.nodes i).role = 2) (p : Nat × Nat) (hp : p ∈ s.cmts)
+    (ht : p.1 ≤ (s.nodes i).term) : (s.nodes i).log.take p.2 = (s.llog p.1).take p.2 := by
+  have I := invAll_reach c0 hne s hr
+  exact leader_complete I.v I.l I.b I.c i hi p hp ht
+
+/-- ... and so does, already, the log it was elected with (a new leader never has to be "repaired") -/
+theorem C03_elected_with_committed (c0 : Cfg) (hne : c0.incoming ≠ [] ∨ c0.outgoing ≠ []) (s : PSys)
+    (hr : ReachC c0 s) (p : Nat × Nat) (hp : p ∈ s.cmts) (t : Nat) (ht : p.1 < t)
+    (hel : ∃ j, (t, j) ∈ s.elected) : (s.elog t).take p.2 = (s.llog p.1).take p.2 :=
+  (invAll_reach c0 hne s hr).c.lc p hp t ht hel
+
+/-- every entry reported committed by anybody (C01's `Committed`) is held by every node in the leader
+role of a term not before the committing leader's -/
+theorem C03_leader_holds_every_committed_entry (c0 : Cfg) (hne : c0.incoming ≠ [] ∨ c0.outgoing ≠ [])
+    (s : PSys) (hr : ReachC c0 s) (i : Nat) (hi : (s.nodes i).role = 2) (p : Nat × Nat) (hp : p ∈ s.cmts)
+    (ht : p.1 ≤ (s.nodes i).term) (k : Nat) (hk : 0 < k) (hkp : k ≤ p.2) :
+    (s.nodes i).log[k - 1]? = (s.llog p.1)[k - 1]? :=
+  getElem?_of_take_eq (C03_leader_holds_committed c0 hne s hr i hi p hp ht) (by omega)
+
+/-- the statement with the voter configuration changing along the history — not proved -/
 def C03_full_statement : Prop :=
-  ∀ (c0 : Cfg) (s : PSys), ReachC c0 s → ∀ t t' k,
-    t < t' → (∃ j, (t', j) ∈ s.elected) →
-    (termAt (s.llog t) k = t ∧ ∃ q, c0.isQuorum q = true ∧
-        ∀ v ∈ q, ∃ a ∈ s.acks, a.term = t ∧ a.frm = v ∧ k ≤ a.idx) →
-    (s.llog t').take k = (s.llog t).take k
+  ∀ (s : PSys), Reach s → ∀ i, (s.nodes i).role = 2 → ∀ p ∈ s.cmts, p.1 ≤ (s.nodes i).term →
+    (s.nodes i).log.take p.2 = (s.llog p.1).take p.2
 
 /-! ### non-vacuity -/
 
